@@ -14,8 +14,15 @@
 (*                    -> import_from_pvd (has to find the latest step)     *)
 (*     frac           a 1-d subdomain and an interface are glued to every  *)
 (*                    2-d grid (more files: dimension 1, mortar 1)         *)
-(*   Every layout gets route "vtu"; layouts of at most `small` cells get   *)
-(*   all routes, all step lists and every offered value of frac.           *)
+(*     via            how the data are handed to write_vtu: "state" (keys   *)
+(*                    of values stored in the md-grid), "tuples" ((grid,    *)
+(*                    key, array) tuples in md-grid order), "permuted"      *)
+(*                    (such tuples in reverse md-grid order; offered when   *)
+(*                    there are at least two grids).  What has to come back *)
+(*                    does not depend on it.                                *)
+(*   Every layout gets route "vtu" with every via; layouts of at most      *)
+(*   `small` cells get all routes, all step lists and every offered value  *)
+(*   of frac (route "vtu" with every via, the others with one via).        *)
 (*   Emit prints one record per configuration: the harness realises it     *)
 (*   with real grids and the real Exporter.  `blocks` is the block layout  *)
 (*   the export must produce (mechanism, conformance only).                *)
@@ -38,7 +45,7 @@ CONSTANTS Families,    \* set of [dim, keys, maxcells, maxgrids, small, fracs]: 
 VARIABLES stage, fam, layout, cfg, hist
 vars == <<stage, fam, layout, cfg, hist>>
 
-NoCfg == [route |-> "none", steps |-> <<>>, frac |-> FALSE]
+NoCfg == [route |-> "none", steps |-> <<>>, frac |-> FALSE, via |-> "none"]
 NoFam == [dim |-> 0, keys |-> {}, maxcells |-> 0, maxgrids |-> 0, small |-> 0, fracs |-> {}]
 
 Init == /\ cfg = NoCfg /\ hist = <<>>
@@ -52,11 +59,14 @@ NewGrid == /\ stage = "build" /\ Len(layout) < fam.maxgrids /\ layout[Len(layout
            /\ Total(layout) < fam.maxcells
            /\ layout' = Append(layout, <<>>)
            /\ UNCHANGED <<stage, fam, cfg, hist>>
+Vias(L) == IF Len(L) >= 2 THEN {"state", "tuples", "permuted"} ELSE {"state", "tuples"}
+OneVia(L) == IF Len(L) >= 2 THEN "permuted" ELSE "tuples"
 Configs(L) ==
-  {[route |-> "vtu", steps |-> <<OneStep>>, frac |-> FALSE]}
+  {[route |-> "vtu", steps |-> <<OneStep>>, frac |-> FALSE, via |-> v] : v \in Vias(L)}
   \cup (IF Total(L) <= fam.small
-        THEN {[route |-> r, steps |-> <<OneStep>>, frac |-> f] : r \in {"vtu", "mdgpvd"}, f \in fam.fracs}
-             \cup {[route |-> "pvd", steps |-> s, frac |-> f] : s \in StepLists, f \in fam.fracs}
+        THEN {[route |-> "vtu", steps |-> <<OneStep>>, frac |-> f, via |-> v] : f \in fam.fracs, v \in Vias(L)}
+             \cup {[route |-> "mdgpvd", steps |-> <<OneStep>>, frac |-> f, via |-> OneVia(L)] : f \in fam.fracs}
+             \cup {[route |-> "pvd", steps |-> s, frac |-> f, via |-> OneVia(L)] : s \in StepLists, f \in fam.fracs}
         ELSE {})
 Finish == /\ stage = "build" /\ layout[Len(layout)] # <<>>
           /\ stage' = "done" /\ cfg' \in Configs(layout)
@@ -81,7 +91,7 @@ LatestLaw   == Done => /\ Latest(cfg.steps) \in Range(cfg.steps)
                        /\ cfg.steps[PosOf(cfg.steps, Latest(cfg.steps))] = Latest(cfg.steps)
 
 Emit == Done => PrintT(ToJson([dim |-> fam.dim, layout |-> layout, route |-> cfg.route, steps |-> cfg.steps,
-                               frac |-> cfg.frac, blocks |-> Blocks(layout)]))
+                               frac |-> cfg.frac, via |-> cfg.via, blocks |-> Blocks(layout)]))
 
 TimeInfoLaw ==
   \A k \in 1..Len(hist) :
